@@ -108,7 +108,7 @@ func newSchemeWorld(sch *crypto.Scheme, seed int64, n, thr int, period time.Dura
 	}
 	var commits = []interface{}{}
 	_ = commits
-	shares, cm := deal(w.rng, sch, sch.KeyGroup.Scalar().Pick(rngStream{w.rng}), n, thr)
+	shares, cm := deal(w.rng, sch, sch.KeyGroup.Scalar().Pick(rngStream{R: w.rng}), n, thr)
 	w.shares = shares
 	for i, s := range shares {
 		w.addSecret(fmt.Sprintf("node%d-share", i), s.Share.V)
@@ -350,15 +350,15 @@ func (w *schemeWorld) handlerPart(rounds int) error {
 	time.Sleep(50 * time.Millisecond)
 	clk.Advance(2 * time.Second) // genesis
 	for r := 1; r <= rounds; r++ {
-		deadline := time.Now().Add(4 * time.Second)
+		deadline := time.Now().Add(1500 * time.Millisecond)
 		for time.Now().Before(deadline) {
-			ok := true
+			have := 0
 			for i := 0; i < n; i++ {
-				if last(i) < uint64(r) {
-					ok = false
+				if last(i) >= uint64(r) {
+					have++
 				}
 			}
-			if ok {
+			if have >= w.group.Threshold {
 				break
 			}
 			time.Sleep(5 * time.Millisecond)
